@@ -756,6 +756,9 @@ def model_strategy():
         'case': st.sampled_from(gen.CASES),
         'mur': st.booleans(),
         'epsr': st.booleans(),
+        # second use of the same Model object after its values were changed
+        'reuse': st.sampled_from(['inplace', 'inplace', 'setter', 'none']),
+        'reuse_map': st.sampled_from(gen.MAPPINGS),
     })
 
 
@@ -863,6 +866,75 @@ def case_model(spec, rec):
                 f"property_{k}, cell {i}: log10 sigma {lc[i]:.15e} vs "
                 f"volume average of log10 sigma {ref[i]:.15e} "
                 f"({w:.1e} x tol); rels {info['rels']}")
+
+    # a Model is interpolated from its *current* values (second use of one
+    # object after an in-place edit or an assignment), and is not modified
+    reuse = spec.get('reuse', 'none')
+    if reuse != 'none' and not info['identical']:
+        m = spec.get('reuse_map', 'Resistivity')
+
+        def vals(salt0):
+            v = {'x': build_values(vs, s1, salt=salt0)}
+            if 'y' in sig:
+                v['y'] = build_values(vs, s1, salt=salt0+1)
+            if 'z' in sig:
+                v['z'] = build_values(vs, s1, salt=salt0+2)
+            return v
+
+        def make(v, mu, ep):
+            return emg3d.Model(
+                g1, gen.map_forward(m, v['x']), gen.map_forward(m, v.get('y')),
+                gen.map_forward(m, v.get('z')),
+                mu_r=None if mu is None else mu.copy(),
+                epsilon_r=None if ep is None else ep.copy(), mapping=m)
+        model = make(sig, mur, epsr)
+        before = {k: np.array(v, copy=True)
+                  for k, v in model.to_dict().items()
+                  if isinstance(v, np.ndarray)}
+        model.interpolate_to_grid(g2)
+        after = model.to_dict()
+        for k, v in before.items():
+            if not np.array_equal(v, after[k]):
+                raise Violation(f"model_modified_by_interpolation:{k}",
+                                f"interpolate_to_grid changed {k} of the "
+                                f"model it was called on ({m})")
+        new = vals(80)
+        mur2 = None if mur is None else np.asfortranarray(
+            rng.uniform(0.5, 5, size=s1))
+        epsr2 = None if epsr is None else np.asfortranarray(
+            rng.uniform(1, 80, size=s1))
+        for k in new:
+            if reuse == 'inplace':
+                getattr(model, 'property_'+k)[...] = gen.map_forward(m, new[k])
+            else:
+                setattr(model, 'property_'+k, gen.map_forward(m, new[k]))
+        if mur2 is not None:
+            if reuse == 'inplace':
+                model.mu_r[...] = mur2
+            else:
+                model.mu_r = mur2
+        if epsr2 is not None:
+            if reuse == 'inplace':
+                model.epsilon_r[...] = epsr2
+            else:
+                model.epsilon_r = epsr2
+        got = model.interpolate_to_grid(g2)
+        ref = make(new, mur2, epsr2).interpolate_to_grid(g2)
+        for name in ('property_x', 'property_y', 'property_z', 'mu_r',
+                     'epsilon_r'):
+            a, b = getattr(got, name), getattr(ref, name)
+            if (a is None) != (b is None):
+                raise Violation(f"model_reuse:{name}:presence", f"{m}")
+            if a is None:
+                continue
+            if not np.allclose(a, b, rtol=1e-12, atol=0):
+                raise Violation(
+                    f"model_reuse:{name}:{reuse}",
+                    f"second interpolate_to_grid of one Model after its "
+                    f"values were changed ({reuse}) differs from a fresh "
+                    f"Model with those values by "
+                    f"{float(np.max(np.abs(a-b)/np.abs(b))):.2e} rel ({m})")
+        rec.cls(f"reuse={reuse}")
 
     _classify_pair(rec, ps, info, g1, g2)
     rec.cls(f"case={case}", f"mur={spec['mur']}", f"epsr={spec['epsr']}")
